@@ -22,9 +22,9 @@
    parking of the state point file, the directory rename; any call when the destination is occupied): after
    the exception the handle's in-memory state point is the on-disk one (repair 8529336 of known finding 4).
    Every stat of the operations is a step of the programs (a failing stat reads as "False" in isfile / isdir /
-   exists / lexists): clear_stat_fault_silent REFUTED (known finding 5), clone_lexists_double_fault REFUTED
-   (known finding 6). *)
-From SV Require Import Base Json MD5 Canon FS Proc Crash CorrC11 C11Proofs C11Remove C11Clone C11Fault.
+   exists / lexists); the two places where that broke the property (findings 5, 6) are repaired (187ceef,
+   ed42bbc): clone_existing_untouched FULL, and the former failing inputs are regression witnesses. *)
+From SV Require Import Base Json MD5 Canon FS Proc Crash CorrC11 C11Proofs C11Remove C11Clone C11Fault C11Clear.
 
 (* the prefix induction principle of the crash semantics *)
 Theorem C11_prefix_induction : forall A (I : prog A -> fs -> Prop) (Q : fs -> Prop),
@@ -157,22 +157,33 @@ Theorem C11_fault_safe_clear : forall frepr wss f0 ws i atomic plan,
 Proof. exact fault_safe_clear_thm. Qed.
 Print Assumptions C11_fault_safe_clear.
 
-(* Project.clone under EVERY fault plan (repaired code: b1f8528).  FULL statement wanted:
+(* Project.clone under EVERY fault plan (repaired code: b1f8528, ed42bbc).  FULL statement wanted:
      forall plan, exception => the destination is absent and the tree is the pre-state;
                   normal return => the copy is complete (post_ok).
    PROVED (hence _partial): for every fault plan — failing copy steps, failing clean-up steps, failing stats —
-   CInv holds when the destination is fresh; and when the destination exists nothing is touched, provided the
-   lexists() of the destination (call 1) is not among the failing calls.  NOT proved: that the clean-up
+   CInv holds, for a fresh and for an existing destination (C11_clone_existing_untouched: an existing
+   destination is not touched at all); the only plans excluded are those that inject ENOENT — which signac reads
+   as "not there", outside the property — at the lstat of an existing destination (call 1).  NOT proved: that the clean-up
    removes everything after a SINGLE fault and that a normal return implies a complete copy (completeness of
    rmtree / copytree over arbitrary trees); both are checked by the correspondence for every single fault of
    the generated scenarios.  A double fault that also defeats the clean-up can leave a validating partial
    copy: known finding 3 (design-level), which CInv tolerates because the copied state point is the source's. *)
 Theorem C11_fault_safe_clone_partial : forall frepr wss f0 ws dws i atomic plan,
   WInv frepr wss f0 -> In ws wss -> In dws wss -> In i (job_dirs f0 ws) ->
-  get f0 (dws ++ [i]) = None \/ plan 1%nat = None ->
+  get f0 (dws ++ [i]) = None \/ plan 1%nat <> Some ENOENT ->
   CInv frepr (KClone ws i dws) wss f0 (fst (run_fault plan 0 (op_prog frepr atomic (KClone ws i dws)) f0)).
 Proof. exact fault_safe_clone_thm. Qed.
 Print Assumptions C11_fault_safe_clone_partial.
+
+(* FULL: an existing destination (other project or the same one) is never touched, whatever fails and however
+   often — copy steps, stats, the lstat of the destination itself (ed42bbc: its error propagates before anything
+   is copied; before that repair a failing lstat plus a failing copy step deleted the destination: finding 6) *)
+Theorem C11_clone_existing_untouched : forall frepr wss f0 ws dws i atomic plan,
+  WInv frepr wss f0 -> In ws wss -> In dws wss -> In i (job_dirs f0 ws) ->
+  get f0 (dws ++ [i]) <> None -> plan 1%nat <> Some ENOENT ->
+  fst (run_fault plan 0 (op_prog frepr atomic (KClone ws i dws)) f0) = f0.
+Proof. exact clone_existing_untouched_thm. Qed.
+Print Assumptions C11_clone_existing_untouched.
 
 (* the former refutation witness (write error on a data file): with the repair the caller sees an exception,
    the destination is gone and every entry equals the pre-state *)
@@ -229,42 +240,49 @@ Print Assumptions C11_rekey_first_rename_repaired_witness.
 (* FAILING STAT CALLS.  os.path.isfile / isdir / exists / lexists read ANY error of the stat as "False": a failing
    stat silently changes a decision.  The model carries every stat of the lifecycle operations (Job.init,
    the re-key, move, clone incl. the three swallowed stats of shutil.copy2 and copystat's stat of the source
-   directory, rmtree's lstat, clear's isfile / isdir), so the fault_safe theorems above quantify over them too.
-   Two places where the swallowed error breaks the property (known findings 5 and 6): *)
+   directory, rmtree's lstat, clear's lstat per entry), so the fault_safe theorems above quantify over them too.
+   The two places where a swallowed error broke the property (known findings 5 and 6) are repaired in /repo
+   (187ceef, ed42bbc); their failing inputs are kept as regression witnesses: *)
 
-(* REFUTED "clear() raises or is complete": the stat of a data file fails once (isfile -> False, isdir ->
-   False): the file is skipped, clear() returns normally, the data is still there; without the fault
-   the same run is complete *)
-Theorem C11_clear_stat_fault_silent_refuted :
+(* FULL (the general form of the witness below): in Job.clear() an error other than ENOENT at the lstat of a
+   direct entry of the job directory — the k-th call of the run, whichever entry, whatever tree, whatever was
+   removed before — is raised to the caller.  (rmtree's own lstat of the entry has the same signature and
+   propagates as well.)  Before 187ceef the error was read as "neither file nor directory" and the entry skipped. *)
+Theorem C11_clear_entry_stat_fault_propagates : forall frepr atomic ws i f0 k e q,
+  e <> ENOENT ->
+  nth_error (map fst (trace (op_prog frepr atomic (KClear ws i)) f0)) k = Some (CStat q) ->
+  parent q = ws ++ [i] ->
+  snd (run_fault (single k e) 0 (op_prog frepr atomic (KClear ws i)) f0) = inr (POs e).
+Proof. exact clear_entry_stat_fault_propagates. Qed.
+Print Assumptions C11_clear_entry_stat_fault_propagates.
+
+(* Job.clear(): the lstat of a data file fails once: the error propagates, the file is still there (before
+   187ceef: isfile -> False, isdir -> False, the file was skipped and clear() returned normally) *)
+Theorem C11_clear_stat_fault_repaired_witness :
   post_ok cw_repr clr_op cw_f0 (fst (run (op_prog cw_repr true clr_op) cw_f0)) = true /\
   match find_occ clr_sig 0 (map fst (trace (op_prog cw_repr true clr_op) cw_f0)) 0 with
   | None => False
   | Some k =>
       let '(g, out) := run_fault (single k EIO) 0 (op_prog cw_repr true clr_op) cw_f0 in
-      out = inl tt /\ get g (cw_a ++ [cw_id; cw_data]) = Some (File cw_bytes) /\ post_ok cw_repr clr_op cw_f0 g = false
+      out = inr (POs EIO) /\ get g (cw_a ++ [cw_id; cw_data]) = Some (File cw_bytes)
   end.
-Proof. exact clear_stat_fault_silent_witness. Qed.
-Print Assumptions C11_clear_stat_fault_silent_refuted.
+Proof. exact clear_stat_fault_repaired_witness. Qed.
+Print Assumptions C11_clear_stat_fault_repaired_witness.
 
-(* REFUTED "an existing clone destination is never touched" under a DOUBLE fault that includes the lexists()
-   of the destination: lexists fails (read as "not there") and the mkdir of the destination fails with EIO:
-   the clean-up deletes the destination job that existed before.  Either fault alone: exception and pre-state
-   (this is the exception already stated in C11_fault_safe_clone_partial) *)
-Theorem C11_clone_lexists_double_fault_refuted :
+(* clone onto an existing destination, the lstat of the destination fails AND the mkdir of the destination
+   would fail: EIO propagates from the lstat, every entry equals the pre-state (instance of
+   C11_clone_existing_untouched; before ed42bbc the clean-up deleted the destination) *)
+Theorem C11_clone_lstat_double_fault_repaired_witness :
   match find_occ cx_stat 0 (map fst (trace (op_prog cw_repr true cw_op) cx_f0)) 0,
         find_occ cx_mkdir 0 (map fst (trace (op_prog cw_repr true cw_op) cx_f0)) 0 with
   | Some k1, Some k2 =>
       let both := fun i => if Nat.eqb i k1 then Some EIO else if Nat.eqb i k2 then Some EIO else None in
-      (let '(g, out) := run_fault both 0 (op_prog cw_repr true cw_op) cx_f0 in
-       (exists e, out = inr e) /\ exists_ g (cw_b ++ [cw_id]) = false)
-      /\ (let '(g, out) := run_fault (single k1 EIO) 0 (op_prog cw_repr true cw_op) cx_f0 in
-          (exists e, out = inr e) /\ forallb (fun e => node_same (get cx_f0 (fst e)) (get g (fst e))) (cx_f0 ++ g) = true)
-      /\ (let '(g, out) := run_fault (single k2 EIO) 0 (op_prog cw_repr true cw_op) cx_f0 in
-          (exists e, out = inr e) /\ forallb (fun e => node_same (get cx_f0 (fst e)) (get g (fst e))) (cx_f0 ++ g) = true)
+      let '(g, out) := run_fault both 0 (op_prog cw_repr true cw_op) cx_f0 in
+      out = inr (POs EIO) /\ forallb (fun e => node_same (get cx_f0 (fst e)) (get g (fst e))) (cx_f0 ++ g) = true
   | _, _ => False
   end.
-Proof. exact clone_lexists_double_fault_witness. Qed.
-Print Assumptions C11_clone_lexists_double_fault_refuted.
+Proof. exact clone_lstat_double_fault_repaired_witness. Qed.
+Print Assumptions C11_clone_lstat_double_fault_repaired_witness.
 
 (* licence for the correspondence step: when a crash_safe theorem covers the case's operation and the
    implementation's observations agree with the model (no mismatch), every crash state the implementation
